@@ -47,6 +47,38 @@ Theorem C06_loader_is_spec :
 Proof. intros r. exact (validate_is_spec gen_num_buckets gen_place_cases gen_kind_names gen_object_names gen_tag_names gen_swap_guard gen_optab r optab_flags_complete). Qed.
 Print Assumptions C06_loader_is_spec.
 
+(* accepted_file_bound: a FILE the loader accepts -- any number of groups, any number of rules per group -- holds only well-bound
+   rules.  The loader is the model in which the variables that reach checkBoundVars for a rule may depend on everything loaded
+   before it (load_groups over an abstract state); the theorem needs that they do not (info_fresh), which is what the regenerated
+   loadRule / loadRuleGroup / field and write inventories of the loader establish for the loader as it is (validate_file). *)
+Theorem C06_accepted_file_bound :
+  forall gs, validate_file gen_num_buckets gen_place_cases gen_kind_names gen_object_names gen_tag_names gen_swap_guard gen_optab gs = true ->
+  forall g r, In g gs -> In r g -> rule_wf gen_optab r = true -> well_bound r.
+Proof.
+  intros gs. unfold validate_file.
+  exact (accepted_file_bound gen_num_buckets gen_place_cases gen_kind_names gen_object_names gen_tag_names gen_swap_guard gen_optab
+           unit (no_state gen_optab) (no_state_fresh gen_optab) optab_flags_complete gs tt).
+Qed.
+Print Assumptions C06_accepted_file_bound.
+
+(* file_is_rules: the verdict on a file is the conjunction of the verdicts on its rules, each taken alone *)
+Theorem C06_file_is_rules :
+  forall gs, validate_file gen_num_buckets gen_place_cases gen_kind_names gen_object_names gen_tag_names gen_swap_guard gen_optab gs =
+             forallb (forallb gen_validate) gs.
+Proof.
+  intros gs. unfold validate_file, gen_validate.
+  exact (load_groups_forallb gen_num_buckets gen_place_cases gen_kind_names gen_object_names gen_tag_names gen_swap_guard gen_optab
+           unit (no_state gen_optab) (no_state_fresh gen_optab) gs tt).
+Qed.
+Print Assumptions C06_file_is_rules.
+
+Theorem C06_loader_keeps_nothing_between_rules :
+  gen_loadRuleGroup_rules = ["for i := range group.Rules { rule := &group.Rules[i] if err := l.loadRule(group, rule); err != nil { return err } }"] /\
+  gen_filterInfo_literals = ["loadRule: filterInfo{ Vars: make(map[string]struct{}), group: group, }"] /\
+  forallb (fun w => write_by "LoadFile" w || write_by "loadBundle" w || write_by "compileFilterFuncs" w || write_by "loadRuleGroup" w) gen_irLoader_writes = true.
+Proof. split; [exact loadRuleGroup_rules_pinned|split; [exact (proj2 filterInfo_pinned)|exact irLoader_writes_outside_rules]]. Qed.
+Print Assumptions C06_loader_keeps_nothing_between_rules.
+
 Theorem C06_accepted_rule_placed :
   forall r a, gen_validate r = true -> v_comment r = false -> In a (v_alts r) ->
   exists l, place_of gen_place_cases (a_tag a) = PTags l /\ l <> [] /\ forall t, In t l -> (t < gen_num_buckets)%N.
@@ -156,6 +188,21 @@ Example ex_leak_without_flag :
   validate gen_num_buckets gen_place_cases gen_kind_names gen_object_names gen_tag_names gen_swap_guard tab r = true /\
   gen_validate_spec r = false /\ gen_validate r = false.
 Proof. vm_compute. repeat split; reflexivity. Qed.
+(* a loader that keeps the Where texts it has built a filter for (and skips newFilter on a hit) accepts a group whose second rule
+   repeats the first one's Where() over a pattern that does not bind the variable; the loader as it is rejects it *)
+Example ex_text_cache_leaks :
+  let r1 := mkVRule false [mkAlt true 4 ["x"; "y"]] [mkAtom [("VarPure", "x")] [] ChkNone] None ["m"] in
+  let r2 := mkVRule false [mkAlt true 10 ["y"]] [mkAtom [("VarPure", "x")] [] ChkNone] None ["m"] in
+  let cached := text_cache gen_optab (fun _ => "m[""x""].Pure") in
+  load_groups gen_num_buckets gen_place_cases gen_kind_names gen_object_names gen_tag_names gen_swap_guard (list string) cached [] [[r1; r2]] = true /\
+  validate_file gen_num_buckets gen_place_cases gen_kind_names gen_object_names gen_tag_names gen_swap_guard gen_optab [[r1; r2]] = false /\
+  validate_file gen_num_buckets gen_place_cases gen_kind_names gen_object_names gen_tag_names gen_swap_guard gen_optab [[r1]; [r1]] = true /\
+  ~ info_fresh gen_optab (list string) cached.
+Proof.
+  cbv zeta. repeat split; try (vm_compute; reflexivity).
+  intros H. specialize (H ["m[""x""].Pure"] (mkVRule false [mkAlt true 10 ["y"]] [mkAtom [("VarPure", "x")] [] ChkNone] None ["m"])).
+  vm_compute in H. discriminate.
+Qed.
 (* the obligation about argument lines is not vacuous: three ops have hand-written arguments, and a case that takes the line of
    its argument is refuted *)
 Example ex_lineless_ops : gen_irconv_lineless_ops = ["FilterVarContainsOp"; "FilterVarFilterOp"; "FilterVarTypeIdenticalToOp"].
